@@ -171,7 +171,8 @@ fn analyse_range(w: &WorldInner, tracer: usize, from: usize, to: usize, t_end: u
                     src: pk.src,
                 });
             }
-            (Ev::TakeError { outcome: Some(k), wire }, _) => {
+            // (a connection attempt that failed with another error is not a response)
+            (Ev::TakeError { outcome: Some(k), wire }, _) if !matches!(k, RespKind::TcpError(_)) => {
                 close(&mut cur, &mut groups);
                 let dst = wire.map(|wid| w.wires[wid].dst);
                 // trippy stamps the response after take_error (refused) or after
